@@ -756,7 +756,7 @@ func run(c Sx) Result {
 			} else if d := sameDump(ref.flat, effm); d != "" {
 				failf("disk layer view differs from the state of its root: %s", d)
 			}
-			obs = append(obs, L(bits, U(rawdb.ReadPersistentStateID(e.disk)), e.dumpSx(effm), e.dumpSx(raw)))
+			obs = append(obs, L(L(bits, U(rawdb.ReadPersistentStateID(e.disk)), e.dumpSx(effm), e.dumpSx(raw)), e.metaSx()))
 		case 5: // historical reads at the listed roots
 			var items SL
 			_, did, _ := e.db.VerifC17Disk()
